@@ -104,3 +104,84 @@ func stampCallerBad(src []byte) stamp {
 	t.read(src)
 	return t
 }
+
+// ---- wrap, sign and reader-filled arrays ----
+
+// seeded: offset+length is added in uint32 and wraps; only the end is tested
+func docWrapBad(data []byte, offset, length uint32) ([]byte, error) {
+	end := offset + length
+	if len(data) < int(end) {
+		return nil, errors.New("EOF")
+	}
+	return data[offset:end], nil
+}
+
+// clean: the sum is taken in int
+func docWrapGood(data []byte, offset, length uint32) ([]byte, error) {
+	start, end := int(offset), int(offset)+int(length)
+	if len(data) < end {
+		return nil, errors.New("EOF")
+	}
+	return data[start:end], nil
+}
+
+// seeded: the test converts the signed value with uint16(), the slice expression does not
+func signBad(data []byte, v int16) (uint16, error) {
+	if len(data) < int(uint16(v))+2 {
+		return 0, errors.New("EOF")
+	}
+	return binary.BigEndian.Uint16(data[v:]), nil
+}
+
+// clean twin
+func signGood(data []byte, v int16) (uint16, error) {
+	if len(data) < int(uint16(v))+2 {
+		return 0, errors.New("EOF")
+	}
+	return binary.BigEndian.Uint16(data[uint16(v):]), nil
+}
+
+// seeded: a reader fills a preallocated array with as many values as a run announces, not as many as were allocated
+func fillBad(data []byte, count int) ([]uint16, error) {
+	if count < 0 {
+		return nil, errors.New("negative count")
+	}
+	out := make([]uint16, count)
+	for n := 0; n < len(out); {
+		if len(data) < 1 {
+			return nil, errors.New("EOF")
+		}
+		run := int(data[0]&0x7F) + 1
+		if len(data) < 1+run {
+			return nil, errors.New("EOF")
+		}
+		for _, b := range data[1 : 1+run] {
+			out[n] = uint16(b)
+			n++
+		}
+		data = data[1+run:]
+	}
+	return out, nil
+}
+
+// clean twin: the array grows with the values
+func fillGood(data []byte, count int) ([]uint16, error) {
+	if count < 0 {
+		return nil, errors.New("negative count")
+	}
+	out := make([]uint16, 0, count)
+	for len(out) < count {
+		if len(data) < 1 {
+			return nil, errors.New("EOF")
+		}
+		run := int(data[0]&0x7F) + 1
+		if len(data) < 1+run {
+			return nil, errors.New("EOF")
+		}
+		for _, b := range data[1 : 1+run] {
+			out = append(out, uint16(b))
+		}
+		data = data[1+run:]
+	}
+	return out, nil
+}
